@@ -36,6 +36,10 @@ pub struct Spec {
     pub authorized: Vec<usize>,
     pub threshold: u32,
     pub perm: Vec<u8>,
+    /// additionally authorise key `i`'s material declared with an unimplemented scheme, and add a signature entry
+    /// labelled with that key's id (true: the genuine signature bytes of key i; false: junk)
+    #[serde(default)]
+    pub unknown_scheme: Option<(usize, bool)>,
 }
 
 fn entry(nkeys: usize) -> BoxedStrategy<Entry> {
@@ -75,9 +79,10 @@ pub fn spec_strategy(cheap: bool, max_keys: usize) -> BoxedStrategy<Spec> {
                 proptest::collection::vec(0..n, 0..=n + 1),
                 prop_oneof![3 => 0u32..=(n as u32 + 1), 1 => Just(u32::MAX), 1 => Just(1u32)],
                 proptest::collection::vec(any::<u8>(), 0..8),
+                proptest::option::weighted(0.15, (0..n, any::<bool>())),
             )
         })
-        .prop_map(|(keys, content, entries, authorized, threshold, perm)| Spec { content, keys, entries, authorized, threshold, perm })
+        .prop_map(|(keys, content, entries, authorized, threshold, perm, unknown_scheme)| Spec { content, keys, entries, authorized, threshold, perm, unknown_scheme })
         .boxed()
 }
 
@@ -167,7 +172,7 @@ impl Property for C04 {
             for a in &auths {
                 for t in 0u32..4 {
                     if i % workers == worker {
-                        out.push(Spec { content: content.clone(), keys: keys.clone(), entries: l.clone(), authorized: a.clone(), threshold: t, perm: vec![1, 2, 0] });
+                        out.push(Spec { content: content.clone(), keys: keys.clone(), entries: l.clone(), authorized: a.clone(), threshold: t, perm: vec![1, 2, 0], unknown_scheme: None });
                     }
                     i += 1;
                 }
@@ -205,7 +210,21 @@ impl Property for C04 {
             *label_counts.entry(*l).or_insert(0) += 1;
         }
         let once = label_counts.values().all(|c| *c == 1);
-        let auth: Vec<PublicKey> = spec.authorized.iter().map(|i| public(&spec.keys[*i])).collect();
+        let mut auth: Vec<PublicKey> = spec.authorized.iter().map(|i| public(&spec.keys[*i])).collect();
+        let mut b = b;
+        if let Some((i, genuine)) = spec.unknown_scheme {
+            let u = crate::world::unknown_scheme_key(&spec.keys[i % n]);
+            let uid = serde_json::to_value(u.key_id()).unwrap().as_str().unwrap().to_string();
+            let bytes = if genuine {
+                let sk = private(&spec.keys[i % n]);
+                Metablock::new(b.block.metadata.clone(), &[&*sk]).expect("sign").signatures[0].value().as_bytes().to_vec()
+            } else {
+                vec![0u8]
+            };
+            b.block.signatures.push(make_sig(&uid, &bytes));
+            auth.push(u);
+            o.class("unknown-scheme-key-authorised");
+        }
         let t = spec.threshold;
         let res = b.block.verify(t, auth.iter());
         let enough = t >= 1 && good.len() as u64 >= t as u64;
